@@ -400,7 +400,7 @@ def gen_out_of_scope(rng, flavor):
 def harness(ctx):
     R = vlib.REPO
     exe, log = ctx.cc('h_sched', [os.path.join(vlib.VERIF, 'harness/h_sched.c'), R + '/librfn/list.c', R + '/librfn/messageq.c',
-                                  R + '/librfn/util.c', R + '/librfn/posix/time_posix.c'], ['-I' + R + '/librfn'])
+                                  R + '/librfn/util.c'], ['-I' + R + '/librfn'])      # time_now()/usleep(): the harness's own virtual clock
     if not exe:
         raise vlib.Infra('scheduler harness does not compile against the repository: ' + log[-1500:])
     return exe
@@ -605,7 +605,7 @@ def line_coverage(ctx, hs):
     R = vlib.REPO
     cmd = ['gcc', '-g', '-O0', '--coverage', '-D' + vlib.GUARD, '-I' + R + '/include', '-I' + os.path.join(vlib.VERIF, 'harness'), '-I' + R + '/librfn',
            '-o', os.path.join(d, 'hc'), os.path.join(vlib.VERIF, 'harness/h_sched.c'), R + '/librfn/list.c', R + '/librfn/messageq.c',
-           R + '/librfn/util.c', R + '/librfn/posix/time_posix.c']
+           R + '/librfn/util.c']
     rc, o, e = vlib.sh(cmd, timeout=300, cwd=d)
     if rc != 0:
         return {'error': (o + e)[-300:]}
